@@ -3,7 +3,9 @@
 (reads /tmp/seedverify-<id>.log for what our checks reported)."""
 import glob, json, os, re, shutil, sys
 pid = sys.argv[1]
-needs = " ".join(sys.argv[2:])
+summary = sys.argv[2]
+needs = sys.argv[3]
+caught_props = sys.argv[4] if len(sys.argv) > 4 else pid
 src = "/tmp/seedout-%s" % pid
 dst = "/verif/seeded/%s" % pid
 os.makedirs(dst, exist_ok=True)
@@ -13,10 +15,10 @@ for p in glob.glob(src + "/**/*_test.go", recursive=True):
 shutil.copy(os.path.join(src, "README.md"), os.path.join(dst, "README.md"))
 log = open("/tmp/seedverify-%s.log" % pid).read() if os.path.exists("/tmp/seedverify-%s.log" % pid) else ""
 sigs = sorted(set(re.findall(r"signature: (\S+)", log)))
-viol = "VIOLATION property=" in log
+viol = ("VIOLATION property=" in log) or bool(sigs)
 demo_fail = "FAIL" in log.split("== demo with patch")[-1].split("== our check")[0] if "== demo with patch" in log else None
 demo_ok = "ok" in log.split("== demo on clean tree")[-1].split("== build")[0] if "== demo on clean tree" in log else None
-meta = dict(property=pid, breaks=pid, needs_to_manifest=needs,
+meta = dict(property=pid, breaks=pid, summary=summary, needs_to_manifest=needs, checks_run=caught_props,
             ran=["tools/verify_seed.sh %s  (scratch worktree at /repo HEAD: demo on clean tree, apply patch, build, demo with patch, ./check with VERIF_REPO=<worktree>)" % pid],
             demo_passes_on_clean_tree=demo_ok, demo_fails_with_patch=demo_fail, caught_by_our_check=viol, signatures=sigs)
 json.dump(meta, open(os.path.join(dst, "meta.json"), "w"), indent=1)
